@@ -11,10 +11,12 @@ LIB_POINT = [  # (type expr, scale in K, origin in K)
 ]
 
 
-def gen_unit(rnd, decls):
-    a, b = rnd.randint(1, 1000), rnd.randint(1, 1000)
+def gen_unit(rnd, decls, origin=None, small_scale=False):
+    a, b = (rnd.randint(1, 12), rnd.randint(1, 12)) if small_scale else (rnd.randint(1, 1000), rnd.randint(1, 1000))
     c = rnd.choice([1, 1, 2, 3, 4, 5, 9, 10, 100, 1000, 7])
     d = rnd.choice([0, 0, 1, -1, 5, -40, 273, 27315, -45967, 12, 1000, -1000, 32])
+    if origin is not None:
+        c, d = origin
     name = f"VfP{len(decls)}"
     decls.append(f"struct {name} : decltype(au::Kelvins{{}} * au::mag<{a}>() / au::mag<{b}>()) {{ static constexpr auto origin() {{ return (au::kelvins / au::mag<{c}>())({d}LL); }} }};")
     return (name, Fraction(a, b), Fraction(d, c))
@@ -32,6 +34,33 @@ def run(chk, which="C10"):
         stmts, entries, lists = [], {}, []
         sid = 1
         while len(lists) < per_tu:
+            if rnd.random() < 0.3:
+                # structured: several inputs share the lowest origin (their displacement from the common origin is ZERO) and
+                # one or two sit higher by an amount whose denominator is foreign to every scale (the granularity of that
+                # displacement must still reach the common unit, whatever the position of the zero displacements in the list)
+                c0, d0 = rnd.choice([(1, 0), (1, 0), (100, 27315), (3, 7), (1, -40), (10, -5)])
+                L = []
+                for _ in range(rnd.choice([2, 2, 3])):
+                    r = rnd.random()
+                    if (c0, d0) == (1, 0) and r < 0.5:
+                        u = rnd.choice([x for x in LIB_POINT if x[2] == 0])
+                    elif (c0, d0) == (100, 27315) and r < 0.5:
+                        u = rnd.choice([x for x in LIB_POINT if x[2] == Fraction(27315, 100) and "Celsius" in x[0]])
+                    else:
+                        u = gen_unit(rnd, decls, origin=(c0, d0), small_scale=rnd.random() < 0.7)
+                    if u[0] not in [x[0] for x in L] and (u[1], u[2]) not in [(x[1], x[2]) for x in L]:
+                        L.append(u)
+                for _ in range(rnd.choice([1, 1, 2])):
+                    q = rnd.choice([7, 11, 13, 17, 1000, 2000, 64, 9])
+                    delta = Fraction(rnd.randint(1, 5 * q), q)
+                    o = Fraction(d0, c0) + delta
+                    u = gen_unit(rnd, decls, origin=(o.denominator, o.numerator), small_scale=rnd.random() < 0.7)
+                    if (u[1], u[2]) not in [(x[1], x[2]) for x in L]:
+                        L.append(u)
+                if len(L) >= 3:
+                    rnd.shuffle(L)
+                    lists.append(L[:4])
+                continue
             n = rnd.choice([2, 2, 3])
             L = []
             seen = set()
